@@ -1651,3 +1651,35 @@ Proof.
   { rewrite (cl_alpn _ _ _ _ _ _ _ Ho1). unfold steer_flight. apply N.eqb_neq in Hn. now rewrite Hn. }
   split; [exact Ha|]. apply (cl_alpn_own _ _ _ _ _ _ _ Ho1). now rewrite Ha.
 Qed.
+
+(* ------------------------------------------------------------------ EMS policy on resumed handshakes *)
+
+(* flight3Parse checks RequireExtendedMasterSecret on EVERY ServerHello, before it branches into handleResumption:
+   a client that requires extended master secret completes - by a full handshake or by a resumption, [f_resumed f]
+   is free - only when the ServerHello of THIS handshake carries the extension *)
+Theorem client12_requires_ems_in_this_server_hello ck sk cs h f o :
+  client12 ck sk cs h f = ROk o ->
+  (c_ems (k_cfg ck) =? g11_ems_require) = true -> f_ems_ext f = true /\ o_ems o = true.
+Proof.
+  intros H Hr. pose proof (client12_spec _ _ _ _ _ _ H) as C.
+  pose proof (cl_ems_required _ _ _ _ _ _ _ C Hr) as He. split; [|exact He].
+  rewrite (cl_ems _ _ _ _ _ _ _ C) in He. change (v12 =? v13) with false in He. cbv iota in He.
+  now apply andb_true_iff in He.
+Qed.
+
+Corollary client12_refuses_resumption_without_ems ck sk cs h f :
+  (c_ems (k_cfg ck) =? g11_ems_require) = true -> f_resumed f = true -> f_ems_ext f = false ->
+  forall o, client12 ck sk cs h f <> ROk o.
+Proof.
+  intros Hr _ He o H. destruct (client12_requires_ems_in_this_server_hello _ _ _ _ _ _ H Hr) as [Hx _]. congruence.
+Qed.
+
+(* ... and the server, whatever its store holds: hello12_choices runs before the session lookup *)
+Theorem server12_requires_ems_in_this_client_hello k ss h resumable f :
+  server12 k ss h resumable = ROk f ->
+  (c_ems (k_cfg k) =? g11_ems_require) = true -> h_ems h = true /\ f_ems_ext f = true.
+Proof.
+  intros H Hr. pose proof (server12_spec _ _ _ _ _ H) as S.
+  pose proof (s12_ems_required _ _ _ _ S Hr) as Hx. split; [|exact Hx].
+  now destruct (s12_ems_ext _ _ _ _ S Hx).
+Qed.
